@@ -2,7 +2,7 @@
 
 use crate::core::{Rng, Tape, World, execute};
 use crate::net::{Chunking, EndCfg};
-use crate::peer::{self, NetCfg, ServerConn, install_epmd_slow, install_peer, read_frame2};
+use crate::peer::{self, NetCfg, ServerConn, install_epmd_net, install_peer, read_frame2};
 use crate::runner::{Info, RunOutput, Scenario, Tier, finish};
 use crate::wire;
 use edp_client::state_machine::{ConnectionState, HandshakeStateMachine};
@@ -93,6 +93,10 @@ struct Plan {
     /// wins), 5 the setters in another order
     #[serde(default)]
     ctor: u32,
+    /// the connection is configured with Duration::MAX ("no timeout"); the peer then never goes silent
+    /// (timeout_ms stays the yardstick for how long a responsive peer may take)
+    #[serde(default)]
+    unbounded_timeout: bool,
     #[serde(default)]
     salt: u64,
 }
@@ -189,6 +193,11 @@ fn gen_end(r: &mut Rng, calm: bool) -> EndCfg {
         latency_ms: *r.pick(&[0, 0, 1, 5, 50]),
         max_delay_ms: *r.pick(&[0, 1, 5, 50]),
     }
+}
+
+/// Deviations after which a client without a timeout would rightly wait for ever.
+fn silent_deviation(a: &Attempt) -> bool {
+    matches!(a.fault.as_str(), "silence" | "hugelen" | "drip" | "delay") || a.ack == "none" || a.ack == "early" || a.connect_delay_ms > 0 || a.challenge == "before_status"
 }
 
 fn gen_attempt(r: &mut Rng, idx: usize, timeout_ms: u64, deviate: bool) -> Attempt {
@@ -404,6 +413,19 @@ impl Scenario for C04 {
             }
             attempts.push(a);
         }
+        let unbounded_timeout = !api && r.chance(1, 25);
+        if unbounded_timeout {
+            // one attempt only: a second handshake on an object that completed one is where the unchanged
+            // tree already fails a conforming peer (by timing out; see DESIGN 9.4, observations)
+            attempts.truncate(1);
+            for a in attempts.iter_mut() {
+                if silent_deviation(a) {
+                    a.fault.clear();
+                    a.ack = "valid".into();
+                    a.connect_delay_ms = 0;
+                }
+            }
+        }
         let ctor = if api { 0 } else { *r.pick(&[0u32, 0, 0, 1, 1, 2, 3, 4, 5]) };
         let local_flags = match ctor {
             2 => DistributionFlags::default_hidden().as_u64(),
@@ -413,6 +435,7 @@ impl Scenario for C04 {
         let p = Plan {
             kind: if api { "api" } else { "connect" }.to_string(),
             ctor,
+            unbounded_timeout,
             cookie: gen_cookie(r),
             local_name: gen_name(r),
             creation: r.next_u32(),
@@ -423,7 +446,7 @@ impl Scenario for C04 {
             cap,
             attempts: if api { Vec::new() } else { attempts },
             steps: if api { gen_api_steps(r) } else { Vec::new() },
-            epmd_delay_ms: if r.chance(1, 6) { *r.pick(&[timeout_ms / 2, timeout_ms + 50, timeout_ms * 3]) } else { 0 },
+            epmd_delay_ms: if !unbounded_timeout && r.chance(1, 6) { *r.pick(&[timeout_ms / 2, timeout_ms + 50, timeout_ms * 3]) } else { 0 },
             salt: r.next_u64(),
         };
         serde_json::to_value(p).unwrap()
@@ -440,6 +463,9 @@ impl Scenario for C04 {
             return RunOutput::default();
         }
         if p.kind != "api" && p.timeout_ms < 50 + 2 * worst_disturbance_ms(&p.client, &p.server, p.cap) {
+            return RunOutput::default();
+        }
+        if p.unbounded_timeout && (p.epmd_delay_ms > 0 || p.attempts.len() != 1 || p.attempts.iter().any(silent_deviation)) {
             return RunOutput::default();
         }
         let world = World::new(tape, keep, p.salt);
@@ -460,7 +486,7 @@ impl Scenario for C04 {
             components_stubbed: &["TCP (SimNet)", "EPMD daemon (conforming stub)", "remote node (scripted handshake peer, independent MD5 formula and layouts)", "challenge source (seeded through hook H4)"],
             assumptions: &["EPMD itself conforms; it may answer late (the property is about the peer, so the time bound is counted from EPMD's answer)", "worst-case injected network delay per frame is kept below half the configured timeout, so a conforming peer is never legitimately timed out"],
             fault_prefixes: &["fault.", "net."],
-            expected_probes: &["probe.c04.connected", "probe.c04.refused_status", "probe.c04.bad_ack_rejected", "probe.c04.stale_ack_rejected", "probe.c04.timeout_on_silence", "probe.c04.reuse_after_close_connected", "probe.c04.delay_just_below_timeout_ok", "probe.c04.delay_above_timeout_err", "probe.c04.api_connected", "probe.c04.timeout_on_dripped_frame", "probe.c04.connected_after_slow_epmd", "probe.c04.configuration_built_another_way"],
+            expected_probes: &["probe.c04.connected", "probe.c04.refused_status", "probe.c04.bad_ack_rejected", "probe.c04.stale_ack_rejected", "probe.c04.timeout_on_silence", "probe.c04.reuse_after_close_connected", "probe.c04.delay_just_below_timeout_ok", "probe.c04.delay_above_timeout_err", "probe.c04.api_connected", "probe.c04.timeout_on_dripped_frame", "probe.c04.connected_after_slow_epmd", "probe.c04.configuration_built_another_way", "probe.c04.no_timeout_configured"],
         }
     }
 }
@@ -712,7 +738,7 @@ fn check_client_frames(w: &Arc<World>, p: &Plan, a: &Attempt, l: &PeerLog) {
 }
 
 async fn connect_history(w: &Arc<World>, p: &Plan) {
-    install_epmd_slow(w, 7, "peer", 5555, true, p.epmd_delay_ms);
+    install_epmd_net(w, 7, "peer", 5555, true, p.epmd_delay_ms, p.salt & 3 == 3);
     let logs: Arc<Mutex<Vec<Arc<Mutex<PeerLog>>>>> = Arc::new(Mutex::new(Vec::new()));
     let stale: Arc<Mutex<Option<[u8; 16]>>> = Arc::new(Mutex::new(None));
     let attempts = p.attempts.clone();
@@ -738,7 +764,10 @@ async fn connect_history(w: &Arc<World>, p: &Plan) {
         },
     );
 
-    let (f, cr, t) = (DistributionFlags::new(p.local_flags), p.creation, Duration::from_millis(p.timeout_ms));
+    let (f, cr, t) = (DistributionFlags::new(p.local_flags), p.creation, if p.unbounded_timeout { Duration::MAX } else { Duration::from_millis(p.timeout_ms) });
+    if p.unbounded_timeout {
+        w.stat("probe.c04.no_timeout_configured");
+    }
     let cfg = match p.ctor {
         1 => ConnectionConfig::new_hidden(p.local_name.clone(), "peer@peerhost", p.cookie.clone()).with_flags(f).with_creation(cr).with_timeout(t),
         2 if p.local_flags == DistributionFlags::default_hidden().as_u64() => ConnectionConfig::new_hidden(p.local_name.clone(), "peer@peerhost", p.cookie.clone()).with_creation(cr).with_timeout(t),
